@@ -512,7 +512,7 @@ class NativeParser(Parser):
                 key = self.counter()
                 # Search for only the FIRST occurrence of '//' in the line.
                 # From there, consider all chars until line ending as ONE comment.
-                line_comment = re.findall("/{2}.*$", line)[0]
+                line_comment = re.findall(r"(?<!:)/{2}.*$", line)[0]
                 s_dict.line_comments.update({key: line_comment})
                 placeholder = f"LINECOMMENT{key:06d}"
                 if not comments:
